@@ -33,6 +33,7 @@ CLASSES = {
     "same-bank-freeidle": (dict(V, cmds=[["R", 0], ["W", 1]]), adv([["R", 0], ["W", 1]], idle=True)),
     "two-bank-adversary": (dict(V, cmds=[["R", 1], ["W", 3]]), adv([["R", 0], ["W", 2]])),         # the adversary changes bank with commands still queued in the other one
     "two-bank-adversary-reads": (dict(V, cmds=[["R", 1]]), adv([["R", 0], ["R", 2]], idle=True)),
+    "three-ports": (dict(V, cmds=[["R", 0], ["W", 1]]), adv([["W", 2]]), adv([["R", 0]], gap=3)),
     "any-bank-anything": (V, adv([["R", 0], ["W", 1], ["W", 2], ["R", 3]], idle=True)),
 }
 LIVE = [("port 0 command offered -> accepted", core.EV_VPEND, core.EV_VACC),
@@ -46,6 +47,7 @@ def configs(tier):
     cs = []
     def add(name, cls, max_states=3_000_000, **kw):
         kw["drivers"] = list(CLASSES[cls])
+        if len(kw["drivers"]) != kw.get("nports", 2): kw["nports"] = len(kw["drivers"])
         cs.append((name + "-" + cls, kw, max_states))
     if tier == "quick":
         for cls in ("other-bank-reads", "other-bank-writes", "other-bank-altrows-writes", "other-bank-mixed", "same-bank-gap3", "same-bank-gap4-writes",
@@ -56,12 +58,14 @@ def configs(tier):
         add("sdr-refresh", "other-bank-writes", refresh=True, **SDR)
         add("sdr-refresh", "same-bank-gap3", refresh=True, **SDR)
         add("sdr-refresh", "other-bank-altrows-writes-1victim", refresh=True, **SDR)
+        add("sdr-depth1-norefresh", "other-bank-mixed", refresh=False, depth=1, **SDR)
         add("sdr-tccd2-norefresh", "other-bank-reads", refresh=False, timing=dict(tCCD=2), **SDR)
         add("sdr-tccd2-norefresh", "other-bank-writes", refresh=False, timing=dict(tCCD=2), **SDR)
         add("ddr3x4-norefresh", "other-bank-altrows-writes", refresh=False, **DDR3)
         add("ddr3x4-norefresh", "same-bank-gap3", refresh=False, **DDR3)
     else:
         for cls in CLASSES:
+            if cls == "three-ports": continue
             add("sdr-norefresh", cls, refresh=False, **SDR)
             add("sdr-noap-norefresh", cls, refresh=False, ap=False, **SDR)
             add("ddr3x4-norefresh", cls, refresh=False, **DDR3)
@@ -69,6 +73,11 @@ def configs(tier):
                 add("sdr-refresh", cls, refresh=True, **SDR)
         add("sdr-rt8-wt2-norefresh", "other-bank-writes", refresh=False, read_time=8, write_time=2, **SDR)
         add("sdr-buffered-d4-norefresh", "other-bank-mixed", refresh=False, buffered=True, depth=4, **SDR)
+        add("sdr-depth0-norefresh", "other-bank-mixed", refresh=False, depth=0, **SDR)
+        add("sdr-depth1-refresh", "same-bank-gap3", refresh=True, depth=1, **SDR)
+        add("sdr-depth4-norefresh", "same-bank-gap4-writes", refresh=False, depth=4, **SDR)
+        add("sdr-3p-norefresh", "three-ports", refresh=False, **dict(SDR, nports=3))
+        add("sdr-3p-refresh", "three-ports", refresh=True, **dict(SDR, nports=3))
     return cs
 
 
